@@ -804,7 +804,21 @@ impl Sim {
             }
             Ok(mut core) => {
                 let idx = probe_indices(after.len.max(before.len));
+                let oj: Vec<Op> = world.lock().unwrap().journal.clone();
                 let s = Self::probe_core(&mut core, &idx);
+                // recovery must be stable: what a further reopen of the recovered store shows is what this one shows
+                let again = {
+                    let files2 = world.lock().unwrap().files.clone();
+                    let w2 = new_world(files2);
+                    match Self::open_core(&w2, None) {
+                        Ok(mut c2) => { let s2 = Self::probe_core(&mut c2, &idx); if s2 == s { "same".to_string() } else { s2 } }
+                        Err(e) => format!("open-failed {}", e.chars().take(80).collect::<String>()),
+                    }
+                };
+                if again != "same" {
+                    let d = format!("crash after {k}/{} storage operations{torn} of the last call: the first reopen shows [{}] but reopening the recovered store once more shows [{}] (journal of the call {}, of the first reopen {})", j.len(), trunc(&s), trunc(&again), trunc(&jfmt(&j)), trunc(&jfmt(&oj)));
+                    fails.push((if t > 0 { "torn-recovery-unstable" } else { "crash-recovery-unstable" }, d));
+                }
                 let sb = before.probe_string(&idx);
                 let sa = after.probe_string(&idx);
                 let is_before = before.exists && s == sb;
@@ -815,6 +829,7 @@ impl Sim {
                 }
                 bumps.push(if is_after { "crash_after" } else { "crash_before" });
                 let out = if s.len() > 600 { format!("{} ## {:016x}", s.split(" ::").next().unwrap(), fnv(&s)) } else { s };
+                let out = format!("{out} oj={} re={}", jfmt(&oj), if again == "same" { "same" } else { "differs" });
                 if go {
                     world.lock().unwrap().journal.clear();
                     h.core = Some(core);
